@@ -75,7 +75,7 @@ func rulesC18(w *World, r *Report) {
 	}
 	if ts := need(w, r, "C18.R1", w.Lib, "Timestamp.String"); ts != nil {
 		c, n := singleCall(ts, func(c *ssa.Call) bool { return isMethodCall(c, "time", "Time", "Format") })
-		ok := n == 1 && strings.Join(callArgExprs(w, c), ",") == `(whispertool.Timestamp).ToStdTime(p0),"2006-01-02T15:04:05Z"`
+		ok := n == 1 && strings.Join(callArgExprs(w, c), ",") == `whispertool.Timestamp.ToStdTime(p0),"2006-01-02T15:04:05Z"`
 		r.Check(ok, "C18.R1", "Timestamp.String", w.pos(ts.Pos()), "UTC time in the fixed layout", "Timestamp.String does not format ToStdTime() with the layout 2006-01-02T15:04:05Z")
 	}
 	ruleToStdTimeUTC(w, r, "C18.R1")
@@ -120,7 +120,7 @@ func rulesC18(w *World, r *Report) {
 			es := callArgExprs(w, c)
 			got = strings.Join(es, " ; ")
 			rd := `cmd\.readWhisperFile\(p0\.SrcBase, p0\.SrcRelPath, p0\.ArchiveID, p0\.From, [^,]+, whispertool\.TimestampFromStdTime\(time\.Now\(\)\)\)`
-			ok = regexp.MustCompile(`^p1 ; ` + rd + `#0 ; \(cmd\.TimeSeriesList\)\.PointsList\(` + rd + `#1\) ; p0\.ShowHeader$`).MatchString(got)
+			ok = regexp.MustCompile(`^p1 ; ` + rd + `#0 ; cmd\.TimeSeriesList\.PointsList\(` + rd + `#1\) ; p0\.ShowHeader$`).MatchString(got)
 		}
 		r.Check(ok, "C18.R3", "ViewCommand.execute:prints-fetch", w.pos(ve.Pos()), "prints the unfiltered result of the read", "view does not print (header, PointsList of the series) exactly as returned by readWhisperFile for the command's file, archive and window: "+got)
 	}
@@ -156,7 +156,7 @@ func rulesC18(w *World, r *Report) {
 			if st, ok := in.(*ssa.Store); ok {
 				ex := newExprCtx(w)
 				a, v := ex.expr(st.Addr), ex.expr(st.Val)
-				if m := regexp.MustCompile(`^make\(len\(p0\)\)\[\((i\d+) \+ 1\)\]$`).FindStringSubmatch(a); m != nil && v == "(*whispertool.TimeSeries).Points(p0[("+m[1]+" + 1)])" {
+				if m := regexp.MustCompile(`^make\(len\(p0\)\)\[\((i\d+) \+ 1\)\]$`).FindStringSubmatch(a); m != nil && v == "whispertool.TimeSeries.Points(p0[("+m[1]+" + 1)])" {
 					okStore = true
 				}
 			}
@@ -169,7 +169,7 @@ func rulesC18(w *World, r *Report) {
 			if st, ok := in.(*ssa.Store); ok {
 				ex := newExprCtx(w)
 				a, v := ex.expr(st.Addr), ex.expr(st.Val)
-				if strings.HasSuffix(a, ".Time") && regexp.MustCompile(`^\(whispertool\.Timestamp\)\.Add\(p0\.fromTime, \(\(i\d+ \+ 1\) \*:int32 p0\.step\)\)$`).MatchString(v) {
+				if strings.HasSuffix(a, ".Time") && regexp.MustCompile(`^whispertool\.Timestamp\.Add\(p0\.fromTime, \(\(i\d+ \+ 1\) \*:int32 p0\.step\)\)$`).MatchString(v) {
 					tOK = true
 				}
 				if strings.HasSuffix(a, ".Value") && regexp.MustCompile(`^p0\.values\[\(i\d+ \+ 1\)\]$`).MatchString(v) {
@@ -185,7 +185,7 @@ func rulesC18(w *World, r *Report) {
 		okLen, okOff := false, false
 		eachInstr(g, func(in ssa.Instruction) {
 			if ms, ok := in.(*ssa.MakeSlice); ok {
-				if regexp.MustCompile(`^\(\*whispertool\.Whisper\)\.ArchiveInfoList\(p0\)\[p1\]\.numberOfPoints$`).MatchString(newExprCtx(w).expr(ms.Len)) {
+				if regexp.MustCompile(`^p0\.header\.archiveInfoList\[p1\]\.numberOfPoints$`).MatchString(newExprCtx(w).expr(ms.Len)) {
 					okLen = true
 				}
 			}
@@ -194,7 +194,7 @@ func rulesC18(w *World, r *Report) {
 					hasInit, hasInc := false, false
 					for _, e := range ph.Edges {
 						s := newExprCtx(w).expr(e)
-						if s == "(*whispertool.Whisper).ArchiveInfoList(p0)[p1].offset" {
+						if s == "p0.header.archiveInfoList[p1].offset" {
 							hasInit = true
 						}
 						if bo, ok := e.(*ssa.BinOp); ok && bo.Op == token.ADD && bo.X == ssa.Value(ph) {
@@ -216,7 +216,7 @@ func rulesC18(w *World, r *Report) {
 		if ok {
 			es := callArgExprs(w, c)
 			got = strings.Join(es, " ; ")
-			ok = regexp.MustCompile(`^\(\*whispertool\.Header\)\.ArchiveInfoList\(p0\)\[\((i\d+) \+ 1\)\] ; p1\[\((i\d+) \+ 1\)\] ; p2 ; p3$`).MatchString(got)
+			ok = regexp.MustCompile(`^p0\.archiveInfoList\[\((i\d+) \+ 1\)\] ; p1\[\((i\d+) \+ 1\)\] ; p2 ; p3$`).MatchString(got)
 		}
 		r.Check(ok, "C18.R4", "filterPointsListByTimeRange", w.pos(fl.Pos()), "every archive is filtered with the caller's from/until", "archives are not all filtered with the caller's unchanged (from, until) against their own ArchiveInfo: "+got)
 	}
@@ -384,7 +384,7 @@ func rulesC19(w *World, r *Report) {
 			case isMethodCall(c, "time", "Time", "Format"):
 				layout = cv.Common().Args[1]
 				recv := newExprCtx(w).expr(cv.Common().Args[0])
-				okUTC := strings.HasPrefix(recv, "(time.Time).UTC(") || strings.HasPrefix(recv, "(whispertool.Timestamp).ToStdTime(")
+				okUTC := strings.HasPrefix(recv, "(time.Time).UTC(") || strings.HasPrefix(recv, "whispertool.Timestamp.ToStdTime(")
 				r.Check(okUTC, "C19.R2", funcName(f)+":format-utc", w.instrPos(c), "formats a UTC time", "a time is formatted without converting to UTC first ("+recv+"), but the layout's zone is the literal Z")
 			case isCallToPkgFunc(c, "time", "Parse"):
 				layout = cv.Common().Args[0]
@@ -478,7 +478,7 @@ func rulesC19(w *World, r *Report) {
 			okS := false
 			for _, rt := range returnsOf(as) {
 				e := newExprCtx(w).expr(rt.Results[0])
-				if strings.Contains(e, "(whispertool.Duration).String(p0.secondsPerPoint)") && strings.Contains(e, "(whispertool.Duration).String((p0.secondsPerPoint *:int32 p0.numberOfPoints))") {
+				if strings.Contains(e, "whispertool.Duration.String(p0.secondsPerPoint)") && strings.Contains(e, "whispertool.Duration.String((p0.secondsPerPoint *:int32 p0.numberOfPoints))") {
 					okS = true
 				}
 			}
@@ -769,7 +769,7 @@ func rulesC20(w *World, r *Report) {
 			}
 			if strings.HasSuffix(a, ".Time") {
 				tGot = v
-				tOK = strings.HasPrefix(v, "(whispertool.Timestamp).Add((whispertool.Timestamp).Truncate(p6, (*whispertool.ArchiveInfo).SecondsPerPoint(p0)), ")
+				tOK = strings.HasPrefix(v, "whispertool.Timestamp.Add(whispertool.Timestamp.Truncate(p6, p0.secondsPerPoint), ")
 			}
 		})
 		// the plain random value is used only for slots strictly before the first slot that holds finer data
